@@ -202,6 +202,13 @@ def check(ctx) -> None:
             ctx.instance("C18-Z3", "rb_applied = len(%s) == list handed to the imputer (%s)" % (tgt, imp_arg), g.loc(n), ok=ok)
             if not ok:
                 ctx.finding("C18-Z3", "stats:rb_applied:source", g.loc(n), "rb_applied is not the length of the list handed to the rule imputer")
+            # balanced_cnt: the number of rows the comparator labelled 'Balance' among the carbon-balanced ones
+            if "balanced_cnt" in key_site and key_site["balanced_cnt"][0] is g:
+                _, nb, vb = key_site["balanced_cnt"]
+                okb, whyb = _balanced_source(ctx, g, vb)
+                ctx.instance("C18-Z3", "balanced_cnt: %s" % whyb, g.loc(nb), ok=okb)
+                if not okb:
+                    ctx.finding("C18-Z3", "stats:balanced_cnt:source", g.loc(nb), "balanced_cnt does not count exactly the rows labelled 'Balance': %s" % whyb)
             _, n2, v2 = key_site.get("rb_solved", (None, None, None))
             if n2 is not None:
                 tgt2 = _len_of(g, v2)
@@ -299,6 +306,76 @@ def _len_of(g: Func, v: ast.AST, depth: int = 0) -> Optional[str]:
         if len(a) == 1 and a[0][2] is None:
             return _len_of(g, a[0][1], depth + 1)
     return None
+
+
+def _balanced_source(ctx, g: Func, v: ast.AST):
+    """balanced_cnt is len(<selection by 'Balance'>) or len(A) - len(B) - len(C) with B, C the
+    selections of A by the remaining labels; every operand is bound exactly once."""
+    from . import c07
+
+    e = v
+    if isinstance(e, ast.Name):
+        a = assignments_to(g, e.id)
+        if len(a) != 1:
+            return False, "%s is assigned %d times" % (e.id, len(a))
+        e = a[0][1]
+    terms = []  # (sign, name)
+
+    def flat(x, sign):
+        if isinstance(x, ast.BinOp) and isinstance(x.op, (ast.Sub, ast.Add)):
+            flat(x.left, sign)
+            flat(x.right, sign if isinstance(x.op, ast.Add) else -sign)
+        else:
+            nm = _len_of(g, x)
+            terms.append((sign, nm, x))
+
+    flat(e, 1)
+    if any(nm is None for _, nm, _x in terms):
+        return False, "term %s is not the length of a list" % unparse([x for _, nm, x in terms if nm is None][0])[:40]
+
+    def selection(nm):
+        a = assignments_to(g, nm)
+        if len(a) != 1:
+            return None, "%s is bound %d times (a selection that is filtered again no longer matches its label)" % (nm, len(a))
+        val = a[0][1]
+        if isinstance(val, ast.Call) and unparse(val.func).split(".")[-1] == "filter_data" and val.args and isinstance(val.args[0], ast.Name):
+            labs = None
+            for k in val.keywords:
+                if k.arg == "unbalance_values":
+                    labs = c07._str_consts(k.value)
+            extra = {k.arg: unparse(k.value) for k in val.keywords if k.arg in ("min_count", "max_count", "element_key")}
+            if labs is None:
+                return None, "%s: unbalance_values is not a list of literals" % nm
+            if extra.get("element_key", "None") != "None":
+                return None, "%s also filters by element (%s)" % (nm, extra)
+            return (val.args[0].id, frozenset(labs)), ""
+        return None, "%s is not a filter_data selection" % nm
+
+    pos = [t for t in terms if t[0] > 0]
+    neg = [t for t in terms if t[0] < 0]
+    if len(pos) != 1:
+        return False, "not of the form len(A) - len(B) - ..."
+    base = pos[0][1]
+    if not neg:
+        sel, why = selection(base)
+        if sel is None:
+            return False, why
+        return sel[1] == frozenset({"Balance"}), "len(%s), selection %s" % (base, sorted(sel[1]))
+    if len(assignments_to(g, base)) != 1:
+        return False, "%s is bound %d times" % (base, len(assignments_to(g, base)))
+    labels = set()
+    for _, nm, _x in neg:
+        sel, why = selection(nm)
+        if sel is None:
+            return False, why
+        if sel[0] != base:
+            return False, "%s is selected from %s, not from %s" % (nm, sel[0], base)
+        if labels & sel[1]:
+            return False, "label(s) %s subtracted twice" % sorted(labels & sel[1])
+        labels |= sel[1]
+    produced = set(c07.produced_labels(ctx)[0]) if hasattr(c07, "produced_labels") else {"Balance", "Both", "Products", "Reactants"}
+    want = produced - {"Balance"}
+    return labels == want, "len(%s) minus the selections by %s (labels other than 'Balance': %s)" % (base, sorted(labels), sorted(want))
 
 
 def _feeds(g: Func, counter: str, key: str) -> bool:
